@@ -65,7 +65,7 @@ def main():
                     return sh("go run .", cwd=demo)  # a program whose exit status is the verdict
                 # a demo whose test generates further packages at run time (README says "." only)
                 readme = os.path.join(demo, "README.txt")
-                dot_only = os.path.exists(readme) and re.search(r"go test[^\n]* \.\s", open(readme).read()) and os.path.isdir(os.path.join(demo, "probe"))
+                dot_only = os.path.exists(readme) and re.search(r"go test[^\n]* \.\s", open(readme).read()) and (os.path.isdir(os.path.join(demo, "probe")) or os.path.isdir(os.path.join(demo, "check")))
                 if dot_only:
                     return sh("TARSGO_ROOT=%s go test -vet=off -count=1 ." % wt, cwd=demo)
                 return sh("go test -vet=off -count=1 ./...", cwd=demo)
